@@ -2729,6 +2729,10 @@ def groupby_reduce(
     else:
         axis_ = normalize_axis_tuple(axis, array.ndim)
     nax = len(axis_)
+    if nax == by_.ndim:
+        # every dimension of `by` is reduced: the order in which the axes were listed is irrelevant,
+        # and the dask combine steps assume ascending axes with the grouped axis last
+        axis_ = tuple(sorted(axis_))
 
     has_dask = is_duck_dask_array(array) or is_duck_dask_array(by_)
     has_cubed = is_duck_cubed_array(array) or is_duck_cubed_array(by_)
